@@ -373,6 +373,47 @@ Definition opt_or_else (T : ty) (s : var) (g : option Z) : res (option Z) :=
     rbind (copy_ctor (oalts T) s) (fun r => if has_value r then rbind (opt_deref r) (fun v => Ok (Some v)) else Ok None)
   else Ok g.
 
+(** ** the ref-qualified overloads, one branch per C++ overload.  q is the value category of the
+   object expression; reported: the result, the category handed to the callee, the object after.
+   [steal]: an element was move-constructed from the contained one. *)
+Definition steal (t : ty) (s : var) : var := {| idx := idx s; val := moved_val t (val s) |}.
+
+(* and_then has all four overloads: & and const& invoke f with **this, && and const&& with move( **this);
+   byval: the callee takes its parameter by value (constructs a T from the argument) *)
+Definition opt_and_then_q (T : ty) (q : qual) (s : var) (f : Z -> option Z) (byval : bool)
+  : res (option Z * option qual * var) :=
+  match q with
+  | QL => if has_value s then rbind (opt_deref s) (fun v => Ok (f v, Some QL, s)) else Ok (None, None, s)
+  | QC => if has_value s then rbind (opt_deref s) (fun v => Ok (f v, Some QC, s)) else Ok (None, None, s)
+  | QR => if has_value s then rbind (opt_deref s) (fun v => Ok (f v, Some QR, if byval then steal T s else s))
+          else Ok (None, None, s)
+  | QCR => if has_value s then rbind (opt_deref s) (fun v => Ok (f v, Some QCR, s)) else Ok (None, None, s)
+  end.
+
+(* or_else has two overloads: const& ( *this ? *this : f() ) serves lvalues and const rvalues,
+   && ( *this ? move( *this) : f() ) non-const rvalues: the result is move-constructed from the object *)
+Definition opt_or_else_q (T : ty) (q : qual) (s : var) (g : option Z) : res (option Z * var) :=
+  match q with
+  | QR =>
+    if has_value s then
+      rbind (move_ctor (oalts T) s) (fun p =>
+        let '(r, s') := p in
+        if has_value r then rbind (opt_deref r) (fun v => Ok (Some v, s')) else Ok (None, s'))
+    else Ok (g, s)
+  | _ => rbind (opt_or_else T s g) (fun r => Ok (r, s))
+  end.
+
+(* value_or has two overloads: const& returns a copy of **this, && a T move-constructed from it *)
+Definition opt_value_or_q (T : ty) (q : qual) (s : var) (d : Z) : res (Z * var) :=
+  match q with
+  | QR => if has_value s then rbind (opt_deref s) (fun v => Ok (v, steal T s)) else Ok (d, s)
+  | _ => rbind (opt_value_or s d) (fun v => Ok (v, s))
+  end.
+
+(* T x = *obj with obj of category q (operator* has all four overloads; && returns T&&) *)
+Definition opt_take_q (T : ty) (q : qual) (s : var) : res (Z * var) :=
+  rbind (opt_deref s) (fun v => Ok (v, if is_rv q then steal T s else s)).
+
 (* free relational operators, optional/optional (also mixed optional<T>/optional<U>) *)
 Definition opt_rel (k : nat) (l r : var) : res bool :=
   match k with
@@ -479,6 +520,58 @@ Definition exp_or_else (s : var) (g : Z -> bool * Z) : res (bool * Z) :=
   if exp_has_value s then rbind (exp_deref s) (fun v => Ok (true, v))
   else rbind (exp_error s) (fun e => Ok (g e)).
 
+(** ** the four ref-qualified overloads of and_then / or_else, one branch per C++ overload.
+   Reported: the result, the value category with which the callee was invoked (None: not invoked),
+   and the object afterwards.  [byval]: the callee takes its parameter by value, i.e. constructs a
+   T (E) from the argument - from a non-const rvalue that is the move constructor, which leaves
+   the source moved-from.  The result's error (and_then) / value (or_else) is always constructed
+   from the forwarded error() / **this. *)
+Definition exp_and_then_q (T E : ty) (q : qual) (s : var) (f : Z -> bool * Z) (byval : bool)
+  : res ((bool * Z) * option qual * var) :=
+  match q with
+  | QL =>   (* & : invoke(f, **this) / U(unexpect, error()) *)
+    if exp_has_value s then rbind (exp_deref s) (fun v => Ok (f v, Some QL, s))
+    else rbind (exp_error s) (fun e => Ok ((false, e), None, s))
+  | QC =>   (* const& : the same expressions on a const object *)
+    if exp_has_value s then rbind (exp_deref s) (fun v => Ok (f v, Some QC, s))
+    else rbind (exp_error s) (fun e => Ok ((false, e), None, s))
+  | QR =>   (* && : invoke(f, move( **this)) / U(unexpect, move(error())) *)
+    if exp_has_value s then rbind (exp_deref s) (fun v => Ok (f v, Some QR, if byval then steal T s else s))
+    else rbind (exp_error s) (fun e => Ok ((false, e), None, steal E s))
+  | QCR =>  (* const&& : move of a const object is a const rvalue: copied *)
+    if exp_has_value s then rbind (exp_deref s) (fun v => Ok (f v, Some QCR, s))
+    else rbind (exp_error s) (fun e => Ok ((false, e), None, s))
+  end.
+
+Definition exp_or_else_q (T E : ty) (q : qual) (s : var) (g : Z -> bool * Z) (byval : bool)
+  : res ((bool * Z) * option qual * var) :=
+  match q with
+  | QL =>   (* & : G(in_place, **this) / invoke(g, error()) *)
+    if exp_has_value s then rbind (exp_deref s) (fun v => Ok ((true, v), None, s))
+    else rbind (exp_error s) (fun e => Ok (g e, Some QL, s))
+  | QC =>
+    if exp_has_value s then rbind (exp_deref s) (fun v => Ok ((true, v), None, s))
+    else rbind (exp_error s) (fun e => Ok (g e, Some QC, s))
+  | QR =>   (* && : G(in_place, move( **this)) / invoke(g, move(error())) *)
+    if exp_has_value s then rbind (exp_deref s) (fun v => Ok ((true, v), None, steal T s))
+    else rbind (exp_error s) (fun e => Ok (g e, Some QR, if byval then steal E s else s))
+  | QCR =>
+    if exp_has_value s then rbind (exp_deref s) (fun v => Ok ((true, v), None, s))
+    else rbind (exp_error s) (fun e => Ok (g e, Some QCR, s))
+  end.
+
+(* value_or has two overloads: const& copies **this, && move-constructs the result from it;
+   T x = *obj and E x = obj.error() with obj of category q (four overloads each) *)
+Definition exp_value_or_q (T : ty) (q : qual) (s : var) (d : Z) : res (Z * var) :=
+  match q with
+  | QR => if exp_has_value s then rbind (exp_deref s) (fun v => Ok (v, steal T s)) else Ok (d, s)
+  | _ => rbind (exp_value_or s d) (fun v => Ok (v, s))
+  end.
+Definition exp_take_q (T : ty) (q : qual) (s : var) : res (Z * var) :=
+  rbind (exp_deref s) (fun v => Ok (v, if is_rv q then steal T s else s)).
+Definition exp_take_error_q (E : ty) (q : qual) (s : var) : res (Z * var) :=
+  rbind (exp_error s) (fun e => Ok (e, if is_rv q then steal E s else s)).
+
 (** * optional<T&> : a pointer cell (T* _ptr).  None = nullptr; a non-null pointer refers to one
    of the numbered referent cells or to the object contained in the source optional<T0> [src]
    (the storage of alternative 1 of its variant: the object is there iff src is engaged) *)
@@ -541,6 +634,14 @@ Definition rstep (T : ty) (s : rstate) (o : rop) : res rstate :=
   | RFromRef t =>
     let '(_, y) := rpick t s in
     rbind (ref_from_ref (pz s)) (fun tmp => Ok (rput t (cells s) (src s) tmp y (pz s)))
+  (* operator=(optional<U> const& rhs): _ptr = rhs.has_value() ? addressof( *rhs) : nullptr -- the same
+     expression as the constructor's initialiser, assigned directly (no temporary) *)
+  | RAssignOpt t =>
+    let '(_, y) := rpick t s in
+    rbind (ref_from_opt (src s)) (fun p => Ok (rput t (cells s) (src s) p y (pz s)))
+  | RAssignRef t =>
+    let '(_, y) := rpick t s in
+    rbind (ref_from_ref (pz s)) (fun p => Ok (rput t (cells s) (src s) p y (pz s)))
   | RZBind c => Ok {| cells := cells s; src := src s; pa := pa s; pb := pb s; pz := Some (RCell c) |}
   | RZNull => Ok {| cells := cells s; src := src s; pa := pa s; pb := pb s; pz := None |}
   | RSrcAssign v =>
